@@ -151,12 +151,119 @@ def rule_d(F):
                 if st["k"] == "assign" and st["rv"]["k"] == "cast" and st["rv"]["kind"] == "Transmute" and st["rv"]["ty"].endswith("instruction::Instruction"):
                     decoders.append(f.short)
     decoders = sorted(set(decoders))
-    allowed = {"vm::Vm::_run", "compiled_program::CaoCompiledProgram::disassemble_writer"}
+    allowed = {fn.short, "compiled_program::CaoCompiledProgram::disassemble_writer"}
     extra = [d for d in decoders if d not in allowed]
-    if "vm::Vm::_run" in decoders and not extra:
+    if fn.short in decoders and not extra:
         res.append(ok("C03.D", "C03/D/single-dispatcher", fn.loc(), "bytes become Instructions only in Vm::_run (and the disassembler)", decoders=decoders))
     else:
         res.append(bad("C03.D", "C03/D/single-dispatcher", fn.loc(), "other code decodes instructions outside the budgeted loop: %s" % extra))
+    return res
+
+
+def copy_of_vm_field(F, fn, place):
+    """The tested counter is `*p` for a parameter p of the loop function, and every caller passes a reference to a local
+    that was loaded from one field of Vm and is stored back into it after the call: returns that field's name."""
+    if not (place["p"] and place["p"][0]["k"] == "deref" and 1 <= place["l"] <= fn.mir["arg_count"]):
+        return None
+    fields = set()
+    for g in F.fns:
+        if not g.mir or g is fn:
+            continue
+        du = DefUse(g)
+        for bi, t in mu.calls(g):
+            if fn.short not in callee_names(t["func"]) or len(t["args"]) < place["l"]:
+                continue
+            # the argument is `&mut <local>` (possibly reborrowed): walk the references back to that local
+            l = op_local(t["args"][place["l"] - 1])
+            seen = set()
+            while l is not None and l not in seen:
+                seen.add(l)
+                d = du.sole_def(l)
+                if d is None or d[2] != "assign" or d[3]["rv"]["k"] not in ("ref", "rawptr"):
+                    break
+                pl_ = d[3]["rv"]["place"]
+                if [e for e in pl_["p"] if e["k"] != "deref"]:
+                    l = None
+                    break
+                l = pl_["l"]
+            if l is None:
+                return None
+            init = None
+            for d in du.defs.get(l, []):
+                if d[2] == "assign" and d[3]["rv"]["k"] == "use":
+                    q = op_place(d[3]["rv"]["op"])
+                    if q is not None and q["l"] == 1:
+                        fs = [(e["name"], short(e.get("owner", ""))) for e in q["p"] if e["k"] == "field"]
+                        if fs and fs[0][1] == "vm::Vm":
+                            init = fs[0][0]
+            def is_l(op):
+                q_ = op_place(op)
+                if q_ is None or q_["p"]:
+                    return False
+                if q_["l"] == l:
+                    return True
+                d_ = du.sole_def(q_["l"])
+                return d_ is not None and d_[2] == "assign" and d_[3]["rv"]["k"] == "use" and (op_place(d_[3]["rv"]["op"]) or {}).get("l") == l \
+                    and not (op_place(d_[3]["rv"]["op"]) or {}).get("p")
+            stored_back = any(st["k"] == "assign" and [e["name"] for e in st["place"]["p"] if e["k"] == "field"] == [init]
+                              and st["rv"]["k"] == "use" and is_l(st["rv"]["op"])
+                              for b in g.blocks for st in b["stmts"]) if init else False
+            if init is None or not stored_back:
+                return None
+            fields.add(init)
+    return next(iter(fields)) if len(fields) == 1 else None
+
+
+def synced_copy(F, fn, place, field, info):
+    """The loop counts on a copy of Vm.<field>. Every call inside the loop that can re-enter the interpreter (reach
+    run_function / the loop itself / call_native, through which host functions run) must hand the copy over before
+    (store field <- copy) and take it back after (load copy <- field), otherwise the nested run draws from a stale field and
+    its consumption is lost."""
+    from cao.facts import CallGraph
+    res = []
+    cg = CallGraph(F)
+    reenter = cg.callers_closure({"vm::Vm::run_function", fn.short, "vm::instr_execution::call_native"})
+    cfg = fn.cfg
+    pk = place_key(place)
+    stores, loads = set(), set()
+    for bi, b in enumerate(fn.blocks):
+        for st in b["stmts"]:
+            if st["k"] != "assign":
+                continue
+            lhs_f = [e["name"] for e in st["place"]["p"] if e["k"] == "field"]
+            if st["place"]["l"] == 1 and lhs_f == [field]:
+                stores.add(bi)
+            if place_key(st["place"]) == pk and st["rv"]["k"] == "use":
+                q = op_place(st["rv"]["op"])
+                du = DefUse(fn)
+                if q is not None and not q["p"]:
+                    kind, payload = du.trace_back(q["l"])
+                    q = payload if kind == "place" else q
+                if q is not None and q["l"] == 1 and [e["name"] for e in q["p"] if e["k"] == "field"] == [field]:
+                    loads.add(bi)
+    n = 0
+    badsites = []
+    header = info["header"]
+    for bi, t in mu.calls(fn):
+        names = callee_names(t["func"])
+        if not any(n_ in reenter for n_ in names) or not cfg.dominates(header, bi):
+            continue
+        n += 1
+        # nearest dominating store within the same iteration, and a load on every path from the call back to the header
+        pre = any(cfg.dominates(sb, bi) and cfg.dominates(header, sb) and sb != header for sb in stores)
+        post = t.get("target") is not None and cfg.every_path_passes(t["target"], [header], loads)
+        if not (pre and post):
+            badsites.append((t, names[0], pre, post))
+    key = "C03/B/%s/budget-copy-is-synchronised" % fn.name
+    if badsites:
+        t, nm, pre, post = badsites[0]
+        res.append(bad("C03.B", key, fn.loc(t.get("ln")),
+                       "the interpreter loop counts on a copy of Vm.%s, and the call to %s - which can re-enter the interpreter (host functions "
+                       "call run_function) - is not bracketed by handing the copy over and taking it back (%s): the nested run starts from a "
+                       "stale budget and what it consumes is lost, so a run executes more than its budget"
+                       % (field, nm.rsplit("::", 1)[-1], "no store before" if not pre else "no reload after")))
+    else:
+        res.append(ok("C03.B", key, fn.loc(), "copy of Vm.%s; all %d re-entering calls in the loop are bracketed by store/reload" % (field, n)))
     return res
 
 
@@ -172,13 +279,20 @@ def rule_b(F):
     owners = [short(e.get("owner", "")) for e in place["p"] if e["k"] == "field"]
     is_vm_field = place["l"] == 1 and owners and owners[0] == "vm::Vm"
     if not is_vm_field:
+        copy = copy_of_vm_field(F, fn, place)
+        if copy is not None:
+            res.extend(synced_copy(F, fn, place, copy, info))
+            fields = [copy]
+            is_vm_field = None
+    if is_vm_field is False:
         res.append(bad("C03.B", "C03/B/_run/budget-is-per-vm", fn.loc(info["cmp"].get("ln")),
                        "the counter tested against the limit is `%s`, a local of Vm::_run initialised on every entry: each "
                        "native->script callback (Vm::run_function re-enters _run) gets a fresh budget, so total work is not bounded by "
                        "the configured budget" % (fn.local_name(place["l"]) or "_%d" % place["l"])))
         return res
     fname = fields[0]
-    res.append(ok("C03.B", "C03/B/_run/budget-is-per-vm", fn.loc(info["cmp"].get("ln")), "the counter is the field Vm.%s, shared by re-entrant _run calls" % fname))
+    if is_vm_field:
+        res.append(ok("C03.B", "C03/B/_run/budget-is-per-vm", fn.loc(info["cmp"].get("ln")), "the counter is the field Vm.%s, shared by re-entrant _run calls" % fname))
     # who writes the field
     writers = {}
     for f in F.fns:
@@ -190,7 +304,10 @@ def rule_b(F):
                     for e in st["place"]["p"]:
                         if e["k"] == "field" and e["name"] == fname and short(e.get("owner", "")) == "vm::Vm":
                             writers.setdefault(f.short, st.get("ln"))
-    allowed = {"vm::Vm::_run", "vm::Vm::run", "vm::Vm::new"}
+    allowed = {fn.short, "vm::Vm::_run", "vm::Vm::run", "vm::Vm::new"}
+    if is_vm_field is None:
+        # the loop works on a copy: the wrapper that makes the copy stores it back
+        allowed |= set(g.short for g in F.fns if g.mir and any(fn.short in callee_names(t["func"]) for _bi, t in mu.calls(g)))
     extra = [w for w in writers if w not in allowed]
     if extra:
         res.append(bad("C03.B", "C03/B/budget-writers", fn.loc(), "Vm.%s is also written by %s" % (fname, extra)))
